@@ -44,6 +44,7 @@ Definition dispatch (id : Z) (s : list Z) : list Z :=
   else if id =? 1101 then run_P chk_pick_schedule s
   else if id =? 1102 then run_P chk_readonly s
   else if id =? 1103 then run_P chk_contended s
+  else if id =? 1104 then run_P chk_update_visible s
   else [8].
 
 (** used by cases.v: the list of case numbers whose verdict is not OK *)
